@@ -10,7 +10,7 @@ THEOREMS = ['HidVerif.Props.C02.' + n for n in ('core_try_undo_correct', 'undo_s
             'HidVerif.PSys.Reach.jump_fallthrough', 'HidVerif.Sphinx.vm_sound']
 TRUSTED = TRUSTED_BASE
 ASSUMPTIONS = _A + ['the reference semantics gives try/stop the reading the generator implements (preempt forced while defeat is '
-                    'caught); try/undo with defeat calls, and try/stop with !is_defeat(), !truth_is_defeat() and calls of (empty, non-preemptive) defeat functions from try/stop and try/undo bodies under any control flow, in the you function are PROVED end to end for the core sub-language (core_try_undo_correct, core_try_stop_correct, tied by the exact core correspondence); return/break/continue out of try/stop bodies, preempt, ??, defeat functions that return values, in whole programs and histories are validated, not proved']
+                    'caught); try/undo with defeat calls, and try/stop with !is_defeat(), !truth_is_defeat() and calls of (non-preemptive) defeat functions, with or without a result, from try/stop and try/undo bodies under any control flow, in the you function are PROVED end to end for the core sub-language (core_try_undo_correct, core_try_stop_correct, tied by the exact core correspondence); return/break/continue out of try/stop bodies, preempt, ?? and preemptive defeat functions in whole programs and histories are validated, not proved']
 RULE = ('generator with try/undo, try/stop, preempt (in try bodies, loops, defeat functions), ??, defeat functions and history '
         'templates (2-5 try blocks in sequence, defeat inline and inside calls); VM vs reference machine; non-trivial = agreeing run '
         'that resolved at least one Turing jump by backtracking')
